@@ -1,4 +1,4 @@
-package hpure
+package syncer
 
 // C10 — filters pass exactly the configured set of commands, keys, slots and databases.
 //
@@ -17,6 +17,7 @@ import (
 	"fmt"
 	"strconv"
 	"strings"
+	"testing"
 
 	"github.com/mgtv-tech/redis-GunYu/config"
 	"github.com/mgtv-tech/redis-GunYu/pkg/filter"
@@ -24,7 +25,9 @@ import (
 	"github.com/mgtv-tech/redis-GunYu/verifshim/ref"
 )
 
-func init() { pureChecks["C10"] = runC10 }
+func init() {
+	verifChecks["C10"] = func(t *testing.T, rep *mc.Reporter) { runC10(rep) }
+}
 
 // bstr is a byte string that survives JSON (Go-quoted inside a JSON string).
 type bstr string
@@ -53,6 +56,12 @@ type c10Cfg struct {
 	PfxBlack  []bstr     `json:"prefix_black,omitempty"`
 	DbBlack   []int      `json:"db_black,omitempty"`
 	CmdBlack  []string   `json:"cmd_black,omitempty"`
+	// only used by the families that go through the tool's own construction (c10e_test.go)
+	KeyFilterSet  bool   `json:"key_filter_section,omitempty"`  // keyFilter section present although both lists are empty
+	SlotFilterSet bool   `json:"slot_filter_section,omitempty"` // slotFilter section present although both lists are empty
+	Cluster       bool   `json:"cluster_output,omitempty"`
+	Via           string `json:"via,omitempty"` // NewRedisOutput | yaml:<style> | flags
+	toolView      interface{}
 }
 
 func bs2s(in []bstr) []string {
@@ -231,7 +240,10 @@ var c10FirstArgKey = strings.Fields(`set setnx setex psetex getdel getex append 
  zremrangebyrank zremrangebylex hset hsetnx hmset hincrby hincrbyfloat hdel incrby decrby incrbyfloat getset
  expire expireat pexpire pexpireat persist restore geoadd pfadd xadd xdel xtrim xack xclaim xautoclaim xsetid
  zpopmin zpopmax hexpire hpexpire hexpireat hpexpireat hpersist hsetex hgetdel hgetex
- json.set json.del json.arrappend json.numincrby json.clear json.merge bf.add bf.madd cf.add cms.incrby topk.add tdigest.add`)
+ json.set json.del json.arrappend json.numincrby json.clear json.merge bf.add bf.madd cf.add cms.incrby topk.add tdigest.add
+ delex xackdel xdelex json.arrinsert json.arrpop json.arrtrim json.forget json.nummultby json.strappend json.toggle
+ bf.insert cf.addnx cf.insert cf.insertnx cms.initbydim cms.initbyprob topk.incrby topk.reserve
+ tdigest.create tdigest.reset tdigest.incrby`)
 
 var c10TwoKeys = strings.Fields(`rename renamenx copy smove rpoplpush lmove blmove brpoplpush zrangestore geosearchstore`)
 var c10AllArgsKeys = strings.Fields(`sinterstore sunionstore sdiffstore pfmerge`)
@@ -858,6 +870,9 @@ func c10Commands(pool []string) []c10Command {
 		add("msetnx", "msetnx", p[0], "1", p[1], "2")
 		add("sort-store", "sort", p[0], "store", p[1])
 		add("sort-store", "sort", p[0], "by", "nosort", "limit", "0", "1", "STORE", p[1])
+		add("sort-store", "sort", p[0], "get", "#", "store", p[1])
+		add("sort-store", "sort", p[0], "by", "w_*", "store", p[1])
+		add("sort-store", "sort", p[0], "by", "w_*->f", "get", "x_*", "desc", "alpha", "STORE", p[1])
 		add("geo-store", "georadius", p[0], "1", "2", "3", "km", "store", p[1])
 		add("geo-store", "georadiusbymember", p[0], "m", "3", "km", "STOREDIST", p[1])
 	}
@@ -874,6 +889,17 @@ func c10Commands(pool []string) []c10Command {
 		}
 		for _, p := range pairs {
 			add("numkeys", c, "s", "1", p[0], p[1]) // one key, one ARGV
+		}
+		for i := range pool { // two-digit numkeys: ten keys, the i-th pool key among nine "c"
+			ten := []string{"s", "10"}
+			for j := 0; j < 10; j++ {
+				if j == 9-i%10 {
+					ten = append(ten, pool[i])
+				} else {
+					ten = append(ten, "c")
+				}
+			}
+			add("numkeys", c, append(ten, "argv")...)
 		}
 	}
 	for _, t := range tuples[len(pool):] {
@@ -940,6 +966,9 @@ func runC10(rep *mc.Reporter) {
 		}
 		e := newC10Env(&s.Cfg)
 		switch s.What {
+		case "config":
+			c10ReplayTool(rep, s)
+			return
 		case "key":
 			e.evalKey(s.Part, s.Db, string(*s.Key))
 		case "command":
@@ -1084,7 +1113,7 @@ func runC10(rep *mc.Reporter) {
 				cfg.CmdBlack = append(cfg.CmdBlack, cmdNames[i])
 			}
 			e := newC10Env(cfg)
-			for _, db := range []int{0, 1, 2, 3, 15} {
+			for _, db := range []int{-1, 0, 1, 2, 3, 15} { // -1 = the "no database" of snapshot function / aux entries
 				for _, c := range dCmds {
 					e.evalCmd("db-cmd", c.fam, db, c.cmd, c.args)
 				}
@@ -1132,6 +1161,9 @@ func runC10(rep *mc.Reporter) {
 		}
 		e.finish(rep, c10Scn{Part: "cmd-order", Cfg: *cfg})
 	}
+
+	// ---- Parts F-H: the tool's own filter construction, configuration loading and parser
+	c10RunToolFamilies(rep, mine, thorough)
 
 	if budget.Expired() {
 		rep.Capped("deadline reached during configuration enumeration")
